@@ -390,6 +390,12 @@ Section Spec.
   (* "left with no PU and no NUMA node below it" and allowed to go *)
   Definition rule_applies (o : dobj) : bool :=
     is_nm (o_type o) && forallb (fun c => negb (present after c)) (nm_desc before fuel o) && left_empty o && type_removable o.
+  (* the recursion reaches o: it is the root, or this restriction changes the sets of its parent *)
+  Definition touched (o : dobj) : bool :=
+    match deref before (o_parent o) with
+    | Some p => bs_intersects (oset (o_ccs p)) dcs || bs_intersects (oset (o_cnds p)) dns
+    | None => true
+    end.
   Definition rule_removed (o : dobj) : bool := negb (present after o) && rule_applies o.
 
   (* the surviving normal objects found first when walking down from o through vanished normal children *)
@@ -404,7 +410,11 @@ Section Spec.
   Definition merged_ok (o : dobj) : bool :=
     is_normal (o_type o) &&
     ((filter_of before (o_type o) =? HWLOC_TYPE_FILTER_KEEP_STRUCTURE) || (o_type o =? HWLOC_OBJ_DIE)) &&
-    (Nat.eqb (List.length (frontier fuel o)) 1) &&
+    (Nat.eqb (List.length (frontier fuel o)) 1 ||
+     match find (fun a => present after a) (ancestors before fuel o) with
+     | Some p => Nat.eqb (List.length (frontier fuel p)) (List.length (frontier fuel o))
+     | None => false
+     end) &&
     forallb (fun q => negb ((o_depth q =? o_depth o)%Z && (o_type q =? o_type o)) || negb (present after q))
             (t_objs before).
 
@@ -443,6 +453,19 @@ Section Spec.
     | Some a => Some (gpN a)
     | None => None
     end.
+  (* when a merged level is replaced by its (single) children, the memory, I/O and Misc
+     children of each merged object go down to that child: for every vanished, not
+     rule-removed ancestor below the closest surviving one, its single surviving
+     normal descendant is an acceptable new parent *)
+  Fixpoint vanished_prefix (l : list dobj) : list dobj :=
+    match l with
+    | [] => []
+    | a :: tl => if present after a then [] else a :: vanished_prefix tl
+    end.
+  Definition merged_down_parents (o : dobj) : list N :=
+    flat_map (fun a => if rule_applies a then [] else
+                       match frontier fuel a with [f] => [gpN f] | _ => [] end)
+             (vanished_prefix (ancestors before fuel o)).
   Definition parent_gp (d : dump) (o : dobj) : option N :=
     match deref d (o_parent o) with Some p => Some (gpN p) | None => None end.
   Definition optN_eqb (a b : option N) : bool :=
@@ -455,8 +478,10 @@ Section Spec.
     | Some o' =>
         chk (same_identity o o') "survivor-identity-changed" id ++
         chk (sets_restricted o o') "survivor-sets-not-old-minus-dropped" id ++
-        chk (optN_eqb (parent_gp after o') (expected_parent_gp o)) "parent-not-closest-surviving-ancestor" id ++
-        (if is_nm (o_type o) then chk (negb (rule_applies o)) "empty-object-not-removed" id
+        chk (optN_eqb (parent_gp after o') (expected_parent_gp o) ||
+             (negb (is_normal (o_type o)) && existsb (fun g => optN_eqb (parent_gp after o') (Some g)) (merged_down_parents o)))
+            "parent-not-closest-surviving-ancestor" id ++
+        (if is_nm (o_type o) then chk (negb (rule_applies o && touched o)) "empty-object-not-removed" id
          else chk (negb (special_dropped o)) "special-kept-below-removed-object-without-adapt" id)
     | None =>
         if is_nm (o_type o) then
